@@ -261,11 +261,27 @@ def shard_unpriv(seed, count):
             st_['drsrs[0]'] = (15 << 1) | 1            # 64 KiB at 0: code and vectors only
             st_['drsrs[1]'] = 0
             st_['sctlr'] |= 1 << 17
+        straddle = (not background) and rng.random() < 0.3 and not name.startswith(('LDRBT', 'STRBT', 'LDRSBT'))
+        if straddle:
+            # the access starts in a region User code may use and ends in one it may not (regions are as small as 32 bytes): every byte of a
+            # split unaligned access is checked on its own, so the access must abort and transfer nothing
+            st_['drsrs[1]'] = (6 << 1) | 1                  # 128 bytes, full access
+            st_['dracrs[1]'] = 3 << 8
+            st_['drsrs[2]'] = (6 << 1) | 1                  # the next 128 bytes: privileged only / user read-only / privileged read-only
+            st_['drbars[2]'] = gen.DATA[0] + 0x80
+            st_['dracrs[2]'] = ap << 8
+            size_ = 2 if name.startswith(('LDRHT', 'STRHT', 'LDRSHT')) else 4
+            st_[gen.bank_key(f['n'], mode)] = gen.DATA[0] + 0x80 - rng.randrange(1, size_)          # at least one byte on each side of the boundary
+            st_['sctlr'] |= 1 << 22                         # unaligned accesses are performed (byte by byte)
+            if 'i' in f:
+                w = w & ~sum(1 << p_ for p_ in row.fields['i'])      # offset 0
+                code = e1.enc_arm(w) if not thumb else e1.enc_thumb(w, True) + b'\x00\xbf'
+                case['poke'][0][1] = code.hex()
         if 'm' in f:
             st_[gen.bank_key(f['m'], mode)] = 0
         is_store = name.startswith('STR')
         user_denied = background or ap in (1, 5) or (ap == 2 and is_store)
-        case['unpriv_check'] = {'user_denied': bool(user_denied), 't': f['t'], 'n': f['n']}
+        case['unpriv_check'] = {'user_denied': bool(user_denied), 't': f['t'], 'n': f['n'], 'straddle': bool(straddle)}
         cpu = e1.build(case)
         pre = target.snapshot(cpu)
         exc = target.step_budget(cpu)
@@ -274,7 +290,13 @@ def shard_unpriv(seed, count):
         if (st_['sctlr'] >> 22) & 1 == 0 and case['cfg'].get('arch_version', 6) < 7 and (st_[gen.bank_key(f['n'], mode)] & 3):
             pass        # legacy align-down: still a single access with User permissions
         memsame = all(pre[k] == post[k] for k in pre if k.startswith('mem'))
-        acc.case(user_denied, ('unpriv', w, ap, st_['cpsr']), cls='unpriv:' + name, sample={'row': name, 'word': '%#x' % w, 'AP': ap, 'mode': mode, 'aborted': aborted, 'background_variant': background})
+        if straddle and not memsame:
+            # the bytes of a split store that lie in the region User code may write can already have been stored when a later byte faults
+            # (a store that aborts leaves the locations it addresses UNKNOWN); what must hold is that no byte of the protected region changed
+            dev = [i for i, m in enumerate(case['mems']) if m[0] == gen.DATA[0]][0]
+            a, b = pre['mem%d' % dev], post['mem%d' % dev]
+            memsame = a[0x80:] == b[0x80:] and all(pre[k] == post[k] for k in pre if k.startswith('mem') and k != 'mem%d' % dev)
+        acc.case(user_denied, ('unpriv', w, ap, st_['cpsr']), cls='unpriv:' + name, sample={'row': name, 'word': '%#x' % w, 'AP': ap, 'mode': mode, 'aborted': aborted, 'background_variant': background, 'straddles_two_regions': straddle})
         if exc is not None:
             acc.violation('C19:unpriv:host-error', case, {'exc': repr(exc)})
         elif user_denied and not (aborted and memsame and post[gen.bank_key(f['t'], mode)] == pre[gen.bank_key(f['t'], mode)]):
@@ -373,6 +395,10 @@ def replay(case, bucket=None):
         mode = gen.MODE_NAME[pre['cpsr'] & 31]
         aborted = (post['cpsr'] & 31) == 0b10111 and post['R.PC'] == 0x10
         memsame = all(pre[k] == post[k] for k in pre if k.startswith('mem'))
+        if uc.get('straddle') and not memsame:
+            dev = [i for i, m in enumerate(case['mems']) if m[0] == gen.DATA[0]][0]
+            a, b = pre['mem%d' % dev], post['mem%d' % dev]
+            memsame = a[0x80:] == b[0x80:] and all(pre[k] == post[k] for k in pre if k.startswith('mem') and k != 'mem%d' % dev)
         if exc is not None:
             return ['host-error']
         if uc['user_denied'] and not (aborted and memsame and post[gen.bank_key(uc['t'], mode)] == pre[gen.bank_key(uc['t'], mode)]):
